@@ -546,3 +546,11 @@ def r_segflag(ctx):
     n = check_segmentation_flag(ctx, [ctx.body(n) for n in ['metrics::_group_words']], 'metrics')
     if n == 0:
         raise AnchorMissing('CharString::new sites of the metrics code')
+
+
+@rule('C13', 'R-C13-7', 'prerequisite (normalised edit distance)',
+      'edit::distance divides the DP answer by max(|a|, |b|) counted in the same Characters as the DP, clamped to >= 1 (R-C12-1 '
+      're-evaluated): mean_normalized_edit_distance is the mean of exactly these values')
+def r7(ctx):
+    from rules import c12
+    c12.r1(ctx)
